@@ -1,6 +1,8 @@
 import Astm.Model.Wire
 import Astm.Model.Receiver
 import Astm.Model.Timer
+import Astm.Model.Encodings
+import Astm.Model.TreeWire
 
 open Astm Astm.Wire
 
@@ -88,6 +90,54 @@ def handle (toks : List String) : String :=
       "ok " ++ " ; ".intercalate (outs.map showTOut) ++ " | " ++ ",".intercalate live
     | _, _ => "bad-arg"
   | ["default-timeout"] => s!"ok {TIMEOUT}"
+  | ["dm", en, h] => match encodingOf en, ofHex h with
+    | some E, some b => match decodeMessage E b with
+      | .ok (seq, recs, cs) => s!"ok {seq} {toHex cs} {showRecords recs}"
+      | .error e => errStr e
+    | _, _ => "bad-arg"
+  | ["dec", en, h] => match encodingOf en, ofHex h with
+    | some E, some b => match decode E b with
+      | .ok recs => s!"ok {showRecords recs}"
+      | .error e => errStr e
+    | _, _ => "bad-arg"
+  | ["df", en, h] => match encodingOf en, ofHex h with
+    | some E, some b => match decodeFrame E b with
+      | .ok (seq, recs) => s!"ok {seq} {showRecords recs}"
+      | .error e => errStr e
+    | _, _ => "bad-arg"
+  | ["dr", en, h] => match encodingOf en, ofHex h with
+    | some E, some b => match decodeRecord E b with
+      | .ok r => s!"ok {showRecord r}"
+      | .error e => errStr e
+    | _, _ => "bad-arg"
+  | ["er", en, t] => match encodingOf en, parseERecord t with
+    | some E, some r => match encodeRecord E r with
+      | .ok b => "ok " ++ toHex b
+      | .error e => errStr e
+    | _, _ => "bad-arg"
+  | ["em", en, sq, t] => match encodingOf en, sq.toNat?, parseERecords t with
+    | some E, some seq, some rs => match encodeMessage E seq rs with
+      | .ok b => "ok " ++ toHex b
+      | .error e => errStr e
+    | _, _, _ => "bad-arg"
+  | ["enc", en, sz, sq, t] => match encodingOf en, sq.toNat?, parseERecords t with
+    | some E, some seq, some rs =>
+      let size := if sz == "-" then some none else sz.toNat?.map some
+      match size with
+      | some size => match encode E rs size seq with
+        | .ok fs => "ok " ++ " ".intercalate (fs.map toHex)
+        | .error e => errStr e
+      | none => "bad-arg"
+    | _, _, _ => "bad-arg"
+  | ["ienc", en, sz, sq, t] => match encodingOf en, sq.toNat?, parseERecords t with
+    | some E, some seq, some rs =>
+      let size := if sz == "-" then some none else sz.toNat?.map some
+      match size with
+      | some size => match iterEncode E size rs seq with
+        | .ok fs => "ok " ++ " ".intercalate (fs.map toHex)
+        | .error e => errStr e
+      | none => "bad-arg"
+    | _, _, _ => "bad-arg"
   | _ => "bad-op"
 
 partial def loop (h : IO.FS.Stream) (out : IO.FS.Stream) : IO Unit := do
